@@ -190,9 +190,51 @@ def live_walk(ctx, case, idxs):
                         {"dense": [d.tolist() for d in case["dense"]], "commons": case["commons"], "live_cube_then": hist}, cls="C14-raises")
 
 
+def huge_frames(ctx):
+    """frames of 2^32 - 1 rows of which only a few are uncommon: the row ids presented sit at both ends of the uint32 range and
+    on either side of 2^31 (an index stores only its uncommon rows, so such a cube is tiny).  Oracle: the property's own
+    statement on the row-id sets."""
+    from catii import ccube, iindex
+    N = 2 ** 32 - 1
+    pool = [0, 1, 5, 2 ** 31 - 2, 2 ** 31 - 1, 2 ** 31, 2 ** 31 + 3, 2 ** 32 - 7, 2 ** 32 - 2]
+    for rep in range(ctx.n(12)):
+        k = ctx.rng.choice([2, 2, 3])
+        dims = []
+        for _ in range(k):
+            rows = sorted(ctx.rng.sample(pool, ctx.rng.randrange(3, len(pool) + 1)))
+            cut = ctx.rng.randrange(1, len(rows))
+            ent = {1: rows[:cut], 2: rows[cut:]}
+            if ctx.rng.random() < 0.5:
+                ent = {2: ent[2], 1: ent[1]}
+            dims.append(ent)
+        idxs = [iindex({(v,): np.array(r, dtype=np.uint32) for v, r in ent.items()}, 0, (N,)) for ent in dims]
+        desc = {"rows": N, "dims": [{str(v): r for v, r in ent.items()} for ent in dims]}
+        ctx.case(desc, nontrivial=True)
+        ctx.hit("huge_frame")
+        exp = []
+        for co in itertools.product(*[[1, 2, -1]] * k):
+            if all(c == -1 for c in co):
+                continue
+            sets = [set(ent[c]) for c, ent in zip(co, dims) if c != -1]
+            rows = sorted(set.intersection(*sets))
+            if rows:
+                exp.append([list(co), rows])
+        try:
+            got = observe(ccube(idxs))
+        except Exception as e:
+            ctx.oracle_fail("interactions() on a frame of 2^32-1 rows raised %s: %s" % (type(e).__name__, str(e)[:80]), desc, cls="C14-raises")
+            continue
+        if sorted(got) != sorted(exp):
+            extra = [g for g in got if g not in exp]
+            miss = [e for e in exp if e not in got]
+            ctx.oracle_fail("walk over a frame of 2^32-1 rows delivered a different multiset: %d extra %s, %d missing %s" % (
+                len(extra), str(extra[:2]), len(miss), str(miss[:2])), desc, cls="C14-wrong-deliveries")
+
+
 def run(ctx):
     core.load_catii()
     reqs, pend = [], []
+    huge_frames(ctx)
     for case in G.exhaustive_small(3, 3, 2):
         check(ctx, case, reqs, pend)
     ctx.exhaustive.append("all lists of 1..3 one-axis dims, N<=3, values<2, every common")
@@ -239,6 +281,18 @@ def replay(ctx, rep):
     core.load_catii()
     from catii import ccube
     c = rep["case"]
+    if "rows" in c and "dims" in c:
+        from catii import iindex
+        dims = [{int(v): r for v, r in ent.items()} for ent in c["dims"]]
+        idxs = [iindex({(v,): np.array(r, dtype=np.uint32) for v, r in ent.items()}, 0, (c["rows"],)) for ent in dims]
+        exp = []
+        for co in itertools.product(*[[1, 2, -1]] * len(dims)):
+            if all(x == -1 for x in co):
+                continue
+            rows = sorted(set.intersection(*[set(ent[x]) for x, ent in zip(co, dims) if x != -1]))
+            if rows:
+                exp.append([list(co), rows])
+        return sorted(observe(ccube(idxs))) == sorted(exp)
     dense = [np.array(d, dtype=np.int64) for d in c["dense"]]
     idxs = [G.make_index(d, cm) for d, cm in zip(dense, c["commons"])]
     if c.get("entry_arrays"):
